@@ -687,8 +687,15 @@ class Interp:
         if isinstance(k, Sym):
             # lookup with a symbolic key in a concrete mapping: fork over the keys
             if isinstance(o, (dict, types.MappingProxyType)):
+                big = len(o) > 8
                 for key in list(o.keys()):
-                    if self.truth(self.compare(ast.Eq(), k, key)):
+                    c = self.compare(ast.Eq(), k, key)
+                    t = self.truth_term(c)
+                    if isinstance(t, bool):
+                        hit = t
+                    else:
+                        hit = self.ctx.decide_nocheck(t) if big else self.ctx.decide(t)
+                    if hit:
                         return o[key]
                 raise PyRaise(KeyError, "symbolic key not in mapping")
             raise Undecided("symbolic subscript")
@@ -966,7 +973,18 @@ class Interp:
             return opaque.compare(self, op, a, b)
         if isinstance(a, (SInt, SBool)) or isinstance(b, (SInt, SBool)):
             if isinstance(a, float) or isinstance(b, float):
-                raise Undecided("float comparison")
+                # an int against +-infinity is decided by the sign of the infinity (exact)
+                import math
+                f, other_is_left = (a, False) if isinstance(a, float) else (b, True)
+                if math.isinf(f):
+                    pos = f > 0
+                    if other_is_left:      # int <op> inf
+                        return {ast.Lt: pos, ast.LtE: pos, ast.Gt: not pos, ast.GtE: not pos}[type(op)]
+                    return {ast.Lt: not pos, ast.LtE: not pos, ast.Gt: pos, ast.GtE: pos}[type(op)]
+                if f == int(f):
+                    a, b = (int(a) if isinstance(a, float) else a), (int(b) if isinstance(b, float) else b)
+                else:
+                    raise Undecided("float comparison")
             x, y = zint(a), zint(b)
             t = {ast.Lt: x < y, ast.LtE: x <= y, ast.Gt: x > y, ast.GtE: x >= y}[type(op)]
             return lower(t)
